@@ -62,7 +62,7 @@ class Entropy:
             # ICMP identifiers: printed length 1..5 digits matters (Frame.size); "short"/"long" force extremes
             if self.id_width == "short":
                 return v % 10
-            if self.id_width == "long":
+            if self.id_width in ("long", "fixed5"):
                 return 10000 + v % 55536
         return v
 
@@ -119,6 +119,9 @@ class FakeClock:
             self.t += self.step
         if zero_us:
             return self.t.replace(microsecond=0)
+        if self.t.microsecond == 0:
+            # isoformat() drops the fraction when it is 0: that printed-width effect is reserved for the zero_us fault
+            self.t += _dt.timedelta(microseconds=1)
         return self.t
 
 
